@@ -26,7 +26,7 @@ func init() {
 		Assumptions: []string{
 			"the in-flight counter is decremented before the harness calls Ack/Nack, so a value above 1 proves two unsettled messages",
 			"nested publishes go from topic 0 to topic 1 only (no user-made cycles)",
-			"a Publish blocked at quiescence is legitimate only in blocking mode when some subscription of the Pub/Sub never acks (the Pub/Sub-wide lock lets one wedged topic block the others once a Subscribe is pending)",
+			"a Publish blocked at quiescence is legitimate only in blocking mode while some subscription of the Pub/Sub withholds its Ack (the Pub/Sub-wide lock lets one wedged topic block the others once a Subscribe is pending); the harness then cancels exactly those subscriptions and every Publish must return",
 		},
 		Run: run,
 	})
@@ -118,6 +118,27 @@ func run(e *vlib.Env) vlib.Result {
 	if oc == vlib.Inconclusive {
 		res.Inconclusive("publishers neither finished nor quiescent before the watchdog")
 	}
+	released := false
+	if oc == vlib.Stuck && blocking {
+		// publishers are blocked at quiescence. If never-acking subscriptions explain it, cancel exactly those:
+		// "Publish returns only after every active subscription acked it (or that subscription ... was closed)",
+		// so now every Publish has to return.
+		hasNever := false
+		for i, sp := range prog.Subs {
+			if sp.NeverAck {
+				hasNever = true
+				rn.CancelSub(i)
+			}
+		}
+		if hasNever {
+			released = true
+			res.Count("never_ack_subscriptions_cancelled_to_release_publishers", 1)
+			oc, dump = vlib.WaitClosed(rn.PubsDone(), vlib.WD)
+			if oc == vlib.Inconclusive {
+				res.Inconclusive("publishers neither finished nor quiescent after the never-acking subscriptions were cancelled")
+			}
+		}
+	}
 	if oc == vlib.Done {
 		vlib.WaitClosed(rn.SubbersDone(), vlib.WD)
 		vlib.WaitClosed(rn.CancelsDone(), vlib.WD)
@@ -126,7 +147,7 @@ func run(e *vlib.Env) vlib.Result {
 		}
 	}
 	if res.Verdict == "" {
-		judge(rn, &res, oc == vlib.Stuck, dump)
+		judge(rn, &res, oc == vlib.Stuck, dump, released)
 	}
 	for _, p := range rn.Panics() {
 		res.Fail("panic", "%s", p)
@@ -143,7 +164,7 @@ func run(e *vlib.Env) vlib.Result {
 	return res
 }
 
-func judge(rn *gcw.Run, res *vlib.Result, stuck bool, dump string) {
+func judge(rn *gcw.Run, res *vlib.Result, stuck bool, dump string, released bool) {
 	prog := rn.Prog
 	blocking := prog.Cfg.BlockPublishUntilSubscriberAck
 	pubs := rn.PubRecs()
@@ -155,6 +176,10 @@ func judge(rn *gcw.Run, res *vlib.Result, stuck bool, dump string) {
 		if s.Spec.NeverAck {
 			poisoned[s.Spec.Topic] = true
 		}
+	}
+	if released {
+		// the never-acking subscriptions were cancelled: nothing explains a blocked Publish any more
+		poisoned = map[int]bool{}
 	}
 	for changed := true; changed; {
 		changed = false
